@@ -109,16 +109,110 @@ def run(rep, tier, parts=("enc", "dec", "builder")):
         rf_ = rep.rule("R17.f", "every instruction type of the builder pushes exactly `self.into_bytes()` (the shared encoding), never a privately built instruction", floor=7)
         pushes = sorted(pth for pth in F.fns if re.match(r"^insn_builder::\w+::push$", pth) and F.fns[pth].get("thir"))
         for pth in pushes:
-            body = F.fns[pth]["thir"]["body"]
-            calls = [(callee_path(n) or "", n) for n in walk(body) if n.get("k") == "call"]
-            ib = [n for c, n in calls if c.endswith("IntoBytes>::into_bytes") or c.endswith("::into_bytes")]
-            ib_self = [n for n in ib if any(x.get("k") in ("var", "upvar") and x.get("name") == "self" for x in walk(n["args"][0]))]
-            private = [c for c, _n in calls if c.endswith("Insn::to_array") or c.endswith("Insn::to_vec")] + \
-                      [n.get("path") for n in walk(body) if n.get("k") == "adt" and str(n.get("path", "")).endswith("ebpf::Insn")]
-            sinks = [c for c, _n in calls if c.endswith("Vec<T, A>::append") or c.endswith("extend_from_slice") or c.endswith("::extend")]
-            rep.ob(rf_, pth, len(ib_self) == 1 and not private and len(sinks) == 1, "%s" % pth,
-                   expected="one into_bytes() of self appended to the program, no Insn built on the side",
-                   found={"into_bytes(self)": len(ib_self), "private encodings": private, "appends": len(sinks)})
+            # evaluated with the shared encoder opaque: exactly one `into_bytes(self)`, and exactly that value is appended
+            # to the program's byte vector (directly or through a helper); nothing else is appended
+            fnp = F.fns[pth]
+            evp = symex.Evaluator(F, opaque_calls=lambda q: q.endswith("into_bytes"))
+            selfv = ("obj", "self", fnp["thir"]["params"][0]["ty"])
+            outs = [(v, s2) for v, s2 in (evp.run_fn(pth, [selfv]) or []) if s2.feasible]
+            ok, found = len(outs) == 1, "%d paths" % len(outs)
+            if ok:
+                s2 = outs[0][1]
+                calls = [e for e in s2.effects if e[0] == "call" and isinstance(e[1], str)]
+                enc = [e for e in calls if e[1].endswith("into_bytes")]
+                sinks = [e for e in calls if re.search(r"Vec<T, A>::(append|extend_from_slice|push|insert|extend)$|Extend<.*>>::extend$", e[1])]
+                private = [e[1] for e in calls if e[1].endswith("Insn::to_array") or e[1].endswith("Insn::to_vec")]
+
+                derefs = {e[3]: e[2][0] for e in calls if len(e) > 3 and re.search(r"Deref>::deref$|::as_slice$|AsRef<.*>>::as_ref$|Borrow<.*>>::borrow$", e[1]) and e[2]}
+
+                def val(x):
+                    for _ in range(8):
+                        if isinstance(x, tuple) and x and x[0] == "ref" and isinstance(x[1], tuple) and x[1][0] == "pv":
+                            x = s2.env.get(x[1][1])
+                        elif x in derefs:
+                            x = derefs[x]
+                        else:
+                            break
+                    return x
+                ok = len(enc) == 1 and enc[0][2][0] == selfv and len(sinks) == 1 and "instructions" in repr(sinks[0][2][0]) \
+                    and val(sinks[0][2][1]) == enc[0][3] and not private
+                found = {"into_bytes(self)": len(enc), "appends": len(sinks), "appended value is the encoding": bool(sinks and enc and val(sinks[0][2][1]) == enc[0][3]),
+                         "private encodings": private}
+            rep.ob(rf_, pth, ok, "%s" % pth, expected="one into_bytes() of self appended to the program, no Insn built on the side", found=found)
+    if "builder" in parts:
+        # R17.g: what the builder encodes are the fields the user set: the getters the encoder reads (and the setters)
+        # go straight to the instruction's own Insn, for every instruction type (no override that filters a field)
+        rg_ = rep.rule("R17.g", "builder getters / setters read and write the instruction's own Insn field, unfiltered, for every instruction type", floor=8)
+
+        def tail_of(fn):
+            b = strip(fn["thir"]["body"])
+            while b.get("k") == "block" and not b["stmts"] and b.get("tail") is not None:
+                b = strip(b["tail"])
+            return b
+
+        def through(n, callee):
+            """n is `self.<callee>()` possibly dereferenced"""
+            n = strip(n)
+            while n.get("k") in ("deref", "ref"):
+                n = strip(n["e"])
+            return n.get("k") == "call" and (callee_path(n) or "").endswith(callee) and \
+                any(x.get("k") in ("var", "upvar") and x.get("name") == "self" for x in walk(n["args"][0]))
+        for pth in sorted(F.fns):
+            m = re.search(r"(?:^insn_builder::Instruction|as insn_builder::Instruction>)::(get|set)_(dst|src|off|imm)$", pth)
+            if not m or not F.fns[pth].get("thir"):
+                continue
+            fn = F.fns[pth]
+            if m.group(1) == "get":
+                # evaluated with `get_insn` answering a symbolic Insn: the result is that Insn's field on every path
+                W = {"dst": 8, "src": 8, "off": 16, "imm": 32}
+                insn_v = symex.struct("ebpf::Insn", "Insn", [("opc", T.V("opc", 8))] + [(f, T.V(f, w)) for f, w in W.items()])
+                mods = {q: (lambda ev_, vals, n_, s_, p_, g_, iv=insn_v: [(iv, s_)]) for q in F.fns if q.endswith("::get_insn")}
+                mods["insn_builder::Instruction::get_insn"] = lambda ev_, vals, n_, s_, p_, g_, iv=insn_v: [(iv, s_)]
+                evg = symex.Evaluator(F, models=mods)
+                outs = [(v, s2) for v, s2 in (evg.run_fn(pth, [("obj", "self", fn["thir"]["params"][0]["ty"])]) or []) if s2.feasible]
+                ok = bool(outs) and all(v == T.V(m.group(2), W[m.group(2)]) or
+                                        (isinstance(v, tuple) and len(v) == 3 and v[0] == "v" and isinstance(v[1], str) and re.fullmatch(r"self\.\w+\.%s" % m.group(2), v[1]))
+                                        for v, _s in outs)
+                rep.ob(rg_, pth, ok, pth, expected="self.get_insn().%s on every path" % m.group(2),
+                       found="as expected" if ok else [symex._short(v) for v, _s in outs][:3])
+            else:
+                # evaluated with `get_insn_mut` answering a reference to one symbolic Insn: afterwards exactly the named
+                # field holds the argument, the other fields are untouched (directly or through a helper / closure)
+                W = {"dst": 8, "src": 8, "off": 16, "imm": 32}
+                KEY = ("INSN", 0)
+                insn_v = symex.struct("ebpf::Insn", "Insn", [("opc", T.V("opc", 8))] + [(f, T.V(f, w)) for f, w in W.items()])
+                ret_ref = lambda ev_, vals, n_, s_, p_, g_: [(("ref", ("pv", KEY)), s_)]
+                mods = {q: ret_ref for q in F.fns if q.endswith("::get_insn_mut") or q.endswith("::get_insn")}
+                mods["insn_builder::Instruction::get_insn_mut"] = ret_ref
+                mods["insn_builder::Instruction::get_insn"] = ret_ref
+                evs = symex.Evaluator(F, models=mods)
+                argv = T.V("ARG", W[m.group(2)])
+                st0 = symex.St().set(KEY, insn_v)
+                selfv = ("obj", "self", fn["thir"]["params"][0]["ty"])
+                outs = [(v, s2) for v, s2 in (evs.run_fn(pth, [selfv, argv], st0) or []) if s2.feasible]
+                ok = len(outs) == 1
+                found = "%d paths" % len(outs)
+                if ok:
+                    after = outs[0][1].env.get(KEY)
+                    fl = {k: x for k, x in after[3]} if isinstance(after, tuple) and after and after[0] == "struct" else {}
+                    want = {f: T.V(f, w) for f, w in W.items()}
+                    want[m.group(2)] = argv
+                    want["opc"] = T.V("opc", 8)
+                    ok = fl == want
+                    found = "as expected" if ok else {k: symex._short(x) for k, x in fl.items() if want.get(k) != x}
+                rep.ob(rg_, pth, ok, pth, expected="self.get_insn_mut().%s = <the argument>, nothing else" % m.group(2), found=found)
+        for pth in sorted(F.fns):
+            m = re.search(r"^<insn_builder::(\w+)<.*> as insn_builder::Instruction>::(get_insn|get_insn_mut)$", pth)
+            if not m or not F.fns[pth].get("thir"):
+                continue
+            t = tail_of(F.fns[pth])
+            while t.get("k") in ("ref", "deref"):
+                t = strip(t["e"])
+            base = strip(t.get("e") or {}) if t.get("k") == "field" else {}
+            while base.get("k") in ("deref", "ref"):
+                base = strip(base["e"])
+            ok = t.get("k") == "field" and (t.get("ty") or "").endswith("ebpf::Insn") and base.get("k") in ("var", "upvar") and base.get("name") == "self"
+            rep.ob(rg_, pth, ok, pth, expected="&self.<the Insn field>", found=t.get("name") if ok else "a different expression")
     rep.trust("rustc front end / typed THIR", "byteorder::LittleEndian::read_i16/read_i32 (modelled as little-endian byte lanes)")
     rep.assume("register numbers 0-15 (4-bit fields)")
 
